@@ -10,4 +10,9 @@ import Reamber.Props.C06
 #print axioms Reamber.Qua.tagsOf_ok
 #print axioms Reamber.Qua.omitted_keysounds_counterexample
 #print axioms Reamber.Qua.converted_chart_counterexample
-#print axioms Reamber.Qua.default_meta_counterexample
+#print axioms Reamber.Qua.string_isv_counterexample
+#print axioms Reamber.Qua.default_meta_typed
+#print axioms Reamber.Qua.qua_write_keys_default
+#print axioms Reamber.Qua.qua_write_denotes
+#print axioms Reamber.Qua.qua_write_read
+#print axioms Reamber.Qua.readMeta_metaOk
